@@ -170,7 +170,10 @@ func srcTexts() []string {
 			srcCache = append(srcCache, t, "C:"+t)
 		}
 		for _, g := range srcGenerated {
-			srcCache = append(srcCache, g.name, "C:"+g.name)
+			srcCache = append(srcCache, g.name)
+			if g.name != "@infinite-recursion" { // fills the whole stack: once is enough
+				srcCache = append(srcCache, "C:"+g.name)
+			}
 		}
 	}
 	return srcCache
